@@ -1155,7 +1155,7 @@ def evaluate__xml_to_json(self: XPathFunction, context: ta.ContextType = None) \
                 continue
 
             if child.tag == NULL_TAG:
-                check_attributes()
+                check_attributes('key')
                 if child.text is not None:
                     msg = 'a null element cannot have a text value'
                     raise self.error('FOJS0006', msg)
